@@ -33,7 +33,9 @@ class CTRLInterface(UDPLink):
 
 	def handle_rx(self):
 		# Read data from socket
-		data, remote = self.sock.recvfrom(128)
+		# NOTE: trxcon may send up to TRXC_BUF_SIZE (1024) octets,
+		# e.g. SETFH with a long Mobile Allocation
+		data, remote = self.sock.recvfrom(1024)
 		data = data.decode()
 
 		if not self.verify_req(data):
